@@ -70,7 +70,7 @@ func mkFlagLong(name, spell string, inl bool, val []string) tok {
 }
 func mkVal(sym ...string) tok { return tok{K: "val", Names: []string{}, Val: []string{}, Sym: sym} }
 func mkPos(sym ...string) tok { return tok{K: "pos", Names: []string{}, Val: []string{}, Sym: sym} }
-func mkDD() tok                { return tok{K: "dd", Names: []string{}, Val: []string{}, Sym: []string{"-", "-"}} }
+func mkDD() tok               { return tok{K: "dd", Names: []string{}, Val: []string{}, Sym: []string{"-", "-"}} }
 func mkBad(cls string, sym ...string) tok {
 	return tok{K: "bad", Names: []string{}, Val: []string{}, Cls: cls, Sym: sym}
 }
@@ -94,18 +94,21 @@ func randCase(rng *rand.Rand, id int) e2eCase {
 	if rng.Float64() < 0.1 {
 		nIn = 0
 	}
-	kinds := []string{"A", "B", "C", "O", "A", "B", "U", "M", "D", "T"}
+	kinds := []string{"A", "B", "C", "O", "A", "B", "A", "B", "C", "T", "U", "U", "M", "M", "D", "E"}
+	if rng.Float64() < 0.06 { // mostly empty / unreadable inputs
+		kinds = []string{"E", "E", "M", "D"}
+	}
 	var ins []string
 	hasU := false
 	for i := 0; i < nIn; i++ {
 		k := pick(rng, kinds)
-		if k == "U" {
+		if k == "U" || k == "E" {
 			hasU = true
 		}
 		ins = append(ins, k)
 	}
-	stdin := pick(rng, []string{"A", "B", "U", "C"})
-	if nIn == 0 && stdin == "U" {
+	stdin := pick(rng, []string{"A", "B", "U", "C", "E"})
+	if nIn == 0 && (stdin == "U" || stdin == "E") {
 		hasU = true
 	}
 	// program
@@ -261,7 +264,15 @@ func randCase(rng *rand.Rand, id int) e2eCase {
 	if fidx == nil {
 		fidx = []int{}
 	}
-	return e2eCase{ID: id, Fam: "rand", Group: "", Toks: toks, Fidx: fidx, Stdin: stdin}
+	// solo runs are only needed where independence applies: a per-input program, no -n, no --slurp
+	perInput := map[string]bool{"id": true, "failB": true, "dup": true, "none": true, "wrap": true, "var": true, "emitfailB": true}
+	solo := (useFile || perInput[prog]) && len(fidx) > 0
+	for _, b := range bools {
+		if b == "null_input" || b == "slurp" {
+			solo = false
+		}
+	}
+	return e2eCase{ID: id, Fam: "rand", Group: "", Toks: toks, Fidx: fidx, Stdin: stdin, Solo: solo}
 }
 
 func randCases(n int, seed int64) []e2eCase {
